@@ -11,8 +11,12 @@ Readings (where the property text leaves a choice, the one under which the minim
   `Performance` (whose constructor has already made the numbers 0..n-1) this is the identity.
 * a `program_change 0` written for a channel/track of a part without programs is "no program"; the
   `end_of_track` mido appends to every track is not an event of the performance.
-* note clause: only when, in every track as the loader sees it (after merging on either side), the notes of
-  one (channel, pitch) do not overlap, and no two of them from different parts/tracks meet on one tick.
+* note clause: only when, in every track as the loader sees it (after merging on either side), for any two notes
+  a, b of one (channel, pitch) with a's messages written before b's (track number, then part, then (note_on,
+  note_off)): a is released no later in ticks than b begins, or b is released on a tick strictly before a begins
+  (`MergeOk` of Props/C06Merge.lean: no overlap; two notes that meet on one tick are written in their order in time).
+* `load_performance(first_note_at_zero=True)` moves the FIRST performed part only: every note / program / control
+  time becomes max(t - s, 0), s = smallest note_on of that part; see `oracle_silence`.
 * ids: within a performed part, `n<k>` is the rank in the lexicographic order of (note_on, midi_pitch,
   note_off, channel, track).
 * the loader makes a performed part only of a track that holds a note, a control or a program (documented
@@ -29,7 +33,8 @@ from core import Eval
 
 PROPERTY = "C06"
 DRIVER = "drv_c06"
-PROPS = ["PartituraModel.Props.C06"]
+PROPS = ["PartituraModel.Props.C06", "PartituraModel.Props.C06Merge", "PartituraModel.Props.C06Tracks",
+         "PartituraModel.Props.C06Silence"]
 TRUSTED = [
     "mido: (de)serialisation of messages, delta times, merge_tracks (stable sort of absolute ticks), fix_end_of_track "
     "(modelled in absolute ticks as mergeAbs/fixEot and compared on every case)",
@@ -39,14 +44,24 @@ TRUSTED = [
     "Python sorted/list.sort are stable (modelled as stable insertion sort); dict/set of small ints "
     "(after fixes/C06-3 no set iteration order is observable)",
     "fifths_mode_to_key_name / key_name_to_fifths_mode (C12) map the 30 keys one to one",
+    "scipy interp1d(kind='previous', fill_value=(first, last)) and numpy comparisons in remove_silence_from_performed_part "
+    "(modelled as prevVal: last sample with time <= t after a stable sort, the first/last listed value outside the "
+    "range; compared on every raw case)",
+    "load_match raises on a MIDI file that contains any message (its bytes are not UTF-8): after fixes/C06-6 it is not "
+    "even tried once the MIDI loader has succeeded",
 ]
 PARTIAL = [
-    "notes_kept_tracks / notes_kept_part are proved for the unmerged file; under merging on either side the theorems give "
-    "merge_tracks (multiset and order of (tick, message)) and pairing_sound (under its alternation hypothesis) separately; "
-    "the composed behaviour is compared on every merged case",
-    "programs under merging: per-track theorem only (programs_kept_tracks); whole-file multiset compared, not proved",
-    "the loader's track renumbering (position among the tracks that become parts; sanitize_track_numbers) is modelled and "
-    "compared (`san`, `load` requests), there is no theorem about it here (C14 proves uniqueness)",
+    "notes under merging (notes_kept_merged, notes_kept_merged_all, notes_kept_part_merged) are proved under the exact "
+    "condition MergeOk on the written order of the notes of one channel and pitch (no overlap across the merged tracks; "
+    "two that meet on one tick are written in their order in time) - necessity is shown by a counter-example, not as a "
+    "general converse; outside it the model is only compared",
+    "programs: the added default programs are characterised (program 0 on a channel a part without programs uses on "
+    "that track) but not counted, and their tick (smallest tick written so far) is compared, not proved",
+    "first_note_at_zero: the value of the control inserted at time 0 and the values of two controls of one "
+    "(track, channel, number) at the same time are modelled and compared (silence_control_values covers groups with "
+    "strictly increasing times); only the FIRST performed part is shifted (code as it is), sound_off (C14) and the stale "
+    "*_tick fields after the shift are not checked",
+    "load_performance on match files is C08's subject; here only MIDI files go through the dispatcher",
     "binary64: tick rounding at x.5 images and adjust_time sums are compared with tolerance, not proved",
     "sound_off of loaded notes (C14) is not part of this check; PerformedPart.mpq of a loaded part is the default tempo "
     "(documented: the loader does not retain tempo) and is not checked",
@@ -55,14 +70,19 @@ RULE = ("structured random performances (1-4 parts/tracks, channels 0-15, veloci
         "tick-grid values and x.5 boundaries, touching and zero-length notes, unsorted note lists, controls of any "
         "number/value, programs or none, key/time signatures, other meta incl. end_of_track) x ppq {96,480,960,1} x "
         "mpq {500000,857142,250001} x merge on save x merge on load x input kind; raw MIDI files with set_tempo "
-        "sequences in any track, zero-velocity note-ons, repeated note-ons, unmatched note-offs, open notes; "
-        "adjust_time on tempo lists in order of tick; mido.merge_tracks alone.  distinct = distinct request "
-        "text; non-trivial = at least one note or tempo event")
+        "sequences in any track (also several on one tick, in one track and across tracks), zero-velocity note-ons, "
+        "note-offs with any release velocity, repeated note-ons, unmatched note-offs, open notes, overlapping notes of "
+        "different pitches and of one pitch on different channels, pitch-bend / channel and polyphonic aftertouch (also on "
+        "sounding pitches) / sysex messages; every raw file and 30% of the written files also through "
+        "load_performance (dispatch; first_note_at_zero); adjust_time on tempo lists in order of tick; "
+        "mido.merge_tracks alone.  distinct = distinct request text; non-trivial = at least one note or tempo event")
 LEVEL_TEXT = ("Lean 4 theorems over all tempo lists / message lists / note lists about an executable model of the exporter "
               "and the loader (tick rounding, bucket order and delta encoding, tempo integration, pairing, ids, controls, "
-              "track merging); the model is tied to the code by a differential run: message list of every written file "
-              "and every loaded field are compared with the model, and an independent Fraction-based oracle states the "
-              "property on the implementation's outputs.")
+              "track merging incl. the composed notes / programs theorems for merged files, track renumbering by "
+              "sanitize_track_numbers and its composition with the loader, silence removal of load_performance); the model "
+              "is tied to the code by a differential run: message list of every written file, every loaded field, the "
+              "dispatcher's result and the part after first_note_at_zero are compared with the model, and an independent "
+              "Fraction/float-based oracle states the property on the implementation's outputs.")
 
 PPQS = [96, 480, 960, 1]
 MPQS = [500000, 857142, 250001]
@@ -95,6 +115,15 @@ OTHER = [
     ("polytouch", {"channel": 2, "note": 60, "value": 9}),
     ("sysex", {"data": (1, 2, 3)}),
 ]
+# round 2: more channel messages the loader has to ignore (appended: old case descriptions index the first four)
+for _ch in (0, 5, 9, 15):
+    for _pw in (-8192, 0, 8191):
+        OTHER.append(("pitchwheel", {"channel": _ch, "pitch": _pw}))
+    OTHER.append(("aftertouch", {"channel": _ch, "value": 127}))
+    for _nt in (0, 60, 64, 127):
+        OTHER.append(("polytouch", {"channel": _ch, "note": _nt, "value": 100}))
+OTHER.append(("sysex", {"data": ()}))
+OTHER.append(("sysex", {"data": tuple(range(0, 120, 7))}))
 
 
 # ------------------------------------------------------------------ message <-> code
@@ -205,7 +234,7 @@ def gen_perf(rng, tier, ppq=None, mpq=None, kind=None):
     mpq = mpq or rng.choice(MPQS)
     kind = kind or rng.choice(["Performance", "PerformedPart", "list", "list"])
     nparts = 1 if kind == "PerformedPart" else rng.choice([1, 2, 2, 3, 4])
-    flavour = rng.choice(["plain", "plain", "overlap", "shared", "sparse"])
+    flavour = rng.choice(["plain", "plain", "overlap", "shared", "sparse", "cross", "cross"])
     # track numbers: dense blocks, or arbitrary (not for Performance, whose constructor renumbers anyway);
     # every (part, track) pair is a "slot" with its own pitches
     parts = []
@@ -231,6 +260,23 @@ def gen_perf(rng, tier, ppq=None, mpq=None, kind=None):
             p["tracks"] = list(range(len(p["tracks"])))
     span = rng.choice([2.0, 20.0, 200.0])
     any_pedal = flavour != "overlap"
+    # round 2: the SAME channel and pitch on different parts / track numbers (they meet only in a merged track):
+    # one timeline, every note on a random (part, track); consecutive notes often touch - in a merged file the
+    # pairing is then right only if the earlier note is written first (lower track number / earlier part)
+    cross = {}
+    if flavour == "cross":
+        for _ in range(rng.choice([1, 1, 2])):
+            pitch, ch = rng.randint(0, 127), rng.randint(0, 15)
+            cur = gen_time(rng, ppq, mpq, 0.0, span)
+            for _k in range(rng.choice([2, 3, 4, 6])):
+                pi = rng.randrange(nparts)
+                tr = rng.choice(parts[pi]["tracks"])
+                on = cur
+                off = on if rng.random() < 0.1 else gen_time(rng, ppq, mpq, on, span / 4)
+                cross.setdefault(pi, []).append([pitch, rng.randint(1, 127), ch, tr, on, off])
+                cur = off if rng.random() < 0.5 else gen_time(rng, ppq, mpq, off, span / 4)
+                if off == on and cur <= off:
+                    cur = off + rng.choice([1e-7, 1e-3, 0.5])
     for pi, p in enumerate(parts):
         trs = p["tracks"]
         if flavour == "shared":
@@ -267,6 +313,9 @@ def gen_perf(rng, tier, ppq=None, mpq=None, kind=None):
                     # a zero-length note and another note of its pitch starting at the same moment make
                     # PerformedPart(...) fail when there is a pedal (C14): keep them apart unless pedal-free
                     cur = off + rng.choice([1e-7, 1e-3, 0.5])
+        for n in cross.get(pi, []):
+            if n[0] not in used:
+                notes.append(n)
         order = rng.random()
         if order < 0.4:
             rng.shuffle(notes)
@@ -293,8 +342,9 @@ def gen_perf(rng, tier, ppq=None, mpq=None, kind=None):
                 metas.append([gen_time(rng, ppq, mpq, 0.0, span * 1.5), rng.randint(0, len(META) - 1), rng.choice(carrying)])
         p.update(notes=notes, controls=controls, programs=programs, keysigs=keysigs, timesigs=timesigs, metas=metas)
         del p["tracks"], p["slots"]
-    return {"k": "perf", "kind": kind, "ppq": ppq, "mpq": mpq, "msave": rng.random() < 0.3, "mload": rng.random() < 0.3,
-            "bpm": rng.choice([120, 120, 120, 60, 90, 100]), "parts": parts}
+    pm = 0.6 if flavour == "cross" else 0.3
+    return {"k": "perf", "kind": kind, "ppq": ppq, "mpq": mpq, "msave": rng.random() < pm, "mload": rng.random() < pm,
+            "bpm": rng.choice([120, 120, 120, 60, 90, 100]), "parts": parts, "lp": rng.random() < 0.3}
 
 
 def gen_raw(rng, tier):
@@ -305,6 +355,7 @@ def gen_raw(rng, tier):
     tracks = []
     tempi = [500000, 250000, 1000000, 857142, 250001, 1, 16777215, 600000, 600000]
     pedal_ok = flavour != "overlap"
+    cluster_tick = rng.choice([None, None, 0, rng.randint(0, horizon)])
     for ti in range(ntr):
         ev = []  # (tick, seq, code)
         seq = 0
@@ -316,6 +367,10 @@ def gen_raw(rng, tier):
 
         for _ in range(rng.choice([0, 0, 1, 2, 4]) if ti else rng.choice([0, 1, 1, 3])):
             put(rng.choice([0, 0, rng.randint(0, horizon), rng.choice([100, 500, 1000])]), (4, rng.choice(tempi), 0, 0))
+        if cluster_tick is not None and rng.random() < 0.7:
+            # several set_tempo on ONE tick, in this track and (same tick) in the others
+            for _ in range(rng.choice([1, 2, 3, 4])):
+                put(cluster_tick, (4, rng.choice(tempi), 0, 0))
         used = set()
         for _ in range(rng.choice([0, 1, 2, 3, 5])):
             # pitches of different tracks are disjoint and a pitch has one timeline (see gen_perf)
@@ -330,7 +385,7 @@ def gen_raw(rng, tier):
                 off = on + rng.choice([0, 0, 1, rng.randint(0, horizon // 4 + 1)])
                 style = rng.random() if flavour == "messy" else 1.0
                 vel = rng.randint(1, 127)
-                offcode = (1, ch, pitch, rng.choice([0, 64])) if rng.random() < 0.6 else (0, ch, pitch, 0)
+                offcode = (1, ch, pitch, rng.choice([0, 64, rng.randint(0, 127)])) if rng.random() < 0.6 else (0, ch, pitch, 0)
                 if style < 0.15:
                     put(on, (0, ch, pitch, vel))
                     put(on + (off - on) // 2, (0, ch, pitch, rng.randint(1, 127)))  # repeated note-on
@@ -375,7 +430,8 @@ def gen_raw(rng, tier):
         if rng.random() < 0.3:
             tr.append([rng.choice([0, 10, 1000]), 7, 0, 0, 0])
         tracks.append(tr)
-    return {"k": "raw", "ppq": ppq, "merge": rng.random() < 0.35, "bpm": rng.choice([120, 120, 120, 60, 90, 100]), "tracks": tracks}
+    return {"k": "raw", "ppq": ppq, "merge": rng.random() < 0.35, "bpm": rng.choice([120, 120, 120, 60, 90, 100]), "tracks": tracks,
+            "lp": True}
 
 
 def gen_adj(rng, tier):
@@ -619,6 +675,153 @@ def _ref_pairs(l):
     return res
 
 
+# ------------------------------------------------------------------ load_performance (dispatch, silence removal)
+def spart_int_text(perf):
+    out = []
+    for pp in perf.performedparts:
+        ns = [W.f_tuple(W.f_int(n["midi_pitch"]), W.f_int(n["velocity"]), W.f_int(n["channel"]), W.f_int(n["track"])) for n in pp.notes]
+        cs = [W.f_tuple(W.f_int(c["number"]), W.f_int(c["value"]), W.f_int(c["channel"]), W.f_int(c["track"])) for c in pp.controls]
+        gs = [W.f_tuple(W.f_int(c["program"]), W.f_int(c["channel"]), W.f_int(c["track"])) for c in pp.programs]
+        out.append(W.f_tuple("[" + ",".join(ns) + "]", "[" + ",".join(cs) + "]", "[" + ",".join(gs) + "]"))
+    return "[" + ",".join(out) + "]"
+
+
+def spart_sec(perf):
+    return [[[[float(n["note_on"]), float(n["note_off"])] for n in pp.notes], [float(c["time"]) for c in pp.controls],
+             [float(c["time"]) for c in pp.programs]] for pp in perf.performedparts]
+
+
+def _snapshot(perf):
+    """(notes, controls, programs) of every part as plain tuples"""
+    out = []
+    for pp in perf.performedparts:
+        out.append(([(n["midi_pitch"], n["velocity"], n["channel"], n["track"], float(n["note_on"]), float(n["note_off"]), str(n["id"])) for n in pp.notes],
+                    [(float(c["time"]), c["number"], int(c["value"]), c["channel"], c["track"]) for c in pp.controls],
+                    [(float(c["time"]), c["program"], c["channel"], c["track"]) for c in pp.programs]))
+    return out
+
+
+def oracle_silence(ev, base, got):
+    """`got` = load_performance(first_note_at_zero=True), `base` = load_performance_midi of the same file (snapshots).
+    Reading: the FIRST performed part is moved so that its first note starts at 0 - every note time, program time
+    and control time becomes max(t - s, 0), s = smallest note_on of that part; order, durations and all other fields
+    are kept; controls before s are replaced by one control per (track, channel, number) at time 0 holding the
+    value in force at s (the latest earlier value; the group's first value if there is none) unless the group has a
+    control exactly at s; a part without notes and all other parts are returned as loaded."""
+    if len(base) != len(got):
+        ev.oracle.append("silence parts: %d parts, %d without first_note_at_zero" % (len(got), len(base)))
+        return
+    for j in range(1, len(base)):
+        if base[j] != got[j]:
+            ev.oracle.append("silence other parts: part %d changed by first_note_at_zero" % j)
+            return
+    if not base:
+        return
+    (n0, c0, g0), (n1, c1, g1) = base[0], got[0]
+    if not n0:
+        if base[0] != got[0]:
+            ev.oracle.append("silence no notes: a part without notes changed by first_note_at_zero")
+        return
+    s = min(n[4] for n in n0)
+    sh = lambda t: max(t - s, 0.0)
+    if len(n0) != len(n1) or any(a[:4] + a[6:] != b[:4] + b[6:] for a, b in zip(n0, n1)):
+        ev.oracle.append("silence notes: notes (pitch, velocity, channel, track, id) changed or reordered: %r -> %r" % (n0[:4], n1[:4]))
+        return
+    for a, b in zip(n0, n1):
+        if not (close(b[4], sh(a[4])) and close(b[5], sh(a[5]))):
+            ev.oracle.append("silence notes: note at (%r, %r) moved to (%r, %r), first onset %r" % (a[4], a[5], b[4], b[5], s))
+            return
+        if not close(b[5] - b[4], a[5] - a[4]):
+            ev.oracle.append("silence durations: note of duration %r has duration %r" % (a[5] - a[4], b[5] - b[4]))
+            return
+    if min(b[4] for b in n1) != 0:
+        ev.oracle.append("silence start: first onset after removal is %r" % min(b[4] for b in n1))
+    if len(g0) != len(g1) or any(a[1:] != b[1:] or not close(b[0], sh(a[0])) for a, b in zip(g0, g1)):
+        ev.oracle.append("silence programs: %r -> %r (first onset %r)" % (g0[:4], g1[:4], s))
+    # controls
+    if any(c[0] < 0 for c in c1) or any(a[0] > b[0] for a, b in zip(c1, c1[1:])):
+        ev.oracle.append("silence controls: times negative or not in order: %r" % ([c[0] for c in c1][:8],))
+        return
+    groups = {}
+    for c in c0:
+        groups.setdefault((c[4], c[3], c[1]), []).append(c)
+    ogroups = {}
+    for c in c1:
+        ogroups.setdefault((c[4], c[3], c[1]), []).append(c)
+    if set(groups) != set(ogroups):
+        ev.oracle.append("silence controls: (track, channel, number) groups %r -> %r" % (sorted(groups)[:6], sorted(ogroups)[:6]))
+        return
+    for key, g in groups.items():
+        og = ogroups[key]
+        later = [c for c in g if c[0] >= s]
+        exp_times = sorted(c[0] - s for c in later)
+        synth = not any(c[0] == s for c in later)
+        if synth:
+            exp_times = [0.0] + exp_times
+        got_times = sorted(c[0] for c in og)
+        if len(exp_times) != len(got_times) or not all(close(a, b) for a, b in zip(got_times, exp_times)):
+            ev.oracle.append("silence controls: group %r has times %r, loaded %r, first onset %r" % (key, got_times[:6], [c[0] for c in g][:6], s))
+            return
+        # values: a control whose time is unique in its group keeps its value
+        for c in later:
+            if sum(1 for x in g if x[0] == c[0]) == 1:
+                if not any(close(o[0], c[0] - s) and o[2] == c[2] for o in og):
+                    ev.oracle.append("silence controls: group %r, control (%r, value %d) has no shifted counterpart in %r" % (key, c[0], c[2], og[:6]))
+                    return
+        if synth:
+            before = [c for c in g if c[0] < s]
+            if before:
+                tmax = max(c[0] for c in before)
+                val = [c for c in before if c[0] == tmax][-1][2]
+            else:
+                val = g[0][2]
+            first = [o for o in og if o[0] == 0]
+            if not first or first[0][2] != val:
+                ev.oracle.append("silence controls: group %r, value in force at the first onset is %d, control at 0 is %r" % (key, val, first[:2]))
+                return
+
+
+def check_load_performance(ev, data, perf, lreq, bpm, merge):
+    """`load_performance` on the file: dispatch (= load_performance_midi) and first_note_at_zero"""
+    import os
+    import tempfile
+    from partitura.io import load_performance
+
+    base = _snapshot(perf)
+    base_text = loaded_int_text(perf)
+    fd, path = tempfile.mkstemp(suffix=".mid", prefix="c06_", dir="/dev/shm" if os.path.isdir("/dev/shm") else None)
+    try:
+        with os.fdopen(fd, "wb") as f:
+            f.write(data)
+        lp, e = call(load_performance, path, default_bpm=bpm, merge_tracks=merge, first_note_at_zero=False)
+        ev.requests.append("load " + lreq)
+        if e:
+            ev.impl.append("err:" + type(e).__name__)
+            ev.oracle.append("dispatch: load_performance of a MIDI file raised %r" % (e,))
+            return
+        ev.impl.append(loaded_int_text(lp))
+        if loaded_int_text(lp) != base_text or loaded_sec(lp) != loaded_sec(perf):
+            ev.oracle.append("dispatch: load_performance and load_performance_midi differ on a MIDI file")
+        lz, e = call(load_performance, path, default_bpm=bpm, merge_tracks=merge, first_note_at_zero=True)
+        ev.requests.append("sil " + lreq)
+        if e:
+            ev.impl.append("err:" + type(e).__name__)
+            ev.oracle.append("silence: load_performance(first_note_at_zero=True) raised %r" % (e,))
+            return
+        ev.impl.append(spart_int_text(lz))
+        ev.requests.append("silt " + lreq)
+        ev.impl.append(("@approx", spart_sec(lz), 1e-9))
+        oracle_silence(ev, base, _snapshot(lz))
+        ev.info["silence_checked"] = 1
+        if base and base[0][0] and min(n[4] for n in base[0][0]) > 0:
+            ev.info["silence_nonzero_start"] = 1
+    finally:
+        try:
+            os.unlink(path)
+        except OSError:
+            pass
+
+
 def build_parts(d):
     from partitura.performance import PerformedPart
 
@@ -734,6 +937,8 @@ def eval_perf(d):
         ev.oracle.append("export: ticks_per_beat %r, asked for %r" % (mf.ticks_per_beat, ppq))
     check_loaded_against_file(ev, perf, tracks, mf.ticks_per_beat, dmpq, d["mload"], "load")
     oracle_roundtrip(ev, d, view, perf)
+    if d.get("lp"):
+        check_load_performance(ev, buf.getvalue(), perf, lreq, d["bpm"], d["mload"])
     ev.key = "perf|" + req if any(p["notes"] for p in view) else None
     ev.info.update({"boundary_times": len(overrides)})
     return ev
@@ -890,14 +1095,17 @@ def oracle_roundtrip(ev, d, view, perf):
     for r in note_rows:
         per.setdefault((r[0], r[1], r[2]), []).append(r)
     for key, l in per.items():
-        l.sort(key=lambda r: (r[4], r[5]))
-        for a, b in zip(l, l[1:]):
-            if a[5] > b[4]:
-                ok = False  # overlap in seconds
-            elif (a[6], a[7]) != (b[6], b[7]) and max(admissible(a[5], ppq, mpq)) >= min(admissible(b[4], ppq, mpq)):
-                ok = False  # different parts/tracks meeting on one tick: the order of the two messages is not fixed
-            elif a[4] == b[4] and a[5] == b[5] and a[4] != a[5]:
-                ok = False
+        # written order: track number, part, (note_on, note_off) - the exporter's order before the stable sorts by tick
+        l.sort(key=lambda r: (r[7], r[6], r[4], r[5]))
+        for i in range(len(l)):
+            for j in range(i + 1, len(l)):
+                a, b = l[i], l[j]
+                first = max(admissible(a[5], ppq, mpq)) <= min(admissible(b[4], ppq, mpq))   # a released no later than b begins
+                second = max(admissible(b[5], ppq, mpq)) < min(admissible(a[4], ppq, mpq))   # b strictly before a
+                if not (first or second):
+                    ok = False  # overlap, or two notes meeting on one tick written against their order in time
+    if ok and any(len(set((r[6], r[7]) for r in l)) > 1 for l in per.values()):
+        ev.info["note_clause_across_tracks"] = 1  # one channel and pitch on several parts / track numbers, clause applied
     if ok:
         exp = [((r[2], r[3], r[1], r[0]), (r[4], r[5])) for r in note_rows]
         got = [((n["midi_pitch"], n["velocity"], n["channel"], n["track"]), (n["note_on"], n["note_off"])) for pp in lp for n in pp.notes]
@@ -957,10 +1165,12 @@ def eval_raw(d):
     ev.requests.append("loadt " + lreq)
     ev.impl.append(("@approx", loaded_sec(perf), 1e-9))
     check_loaded_against_file(ev, perf, tracks, ppq, dmpq, d["merge"], "load")
+    if d.get("lp"):
+        check_load_performance(ev, buf.getvalue(), perf, lreq, d["bpm"], d["merge"])
     ntempo = sum(1 for tr in tracks for m in tr if m[1] == 4)
     nnotes = sum(len(pp.notes) for pp in perf.performedparts)
     ev.key = ("raw|" + lreq) if (ntempo or nnotes) else None
-    ev.info = {"tempo_events": ntempo, "tempo_in_later_track": int(any(m[1] == 4 for tr in tracks[1:] for m in tr))}
+    ev.info.update({"tempo_events": ntempo, "tempo_in_later_track": int(any(m[1] == 4 for tr in tracks[1:] for m in tr))})
     return ev
 
 
